@@ -792,7 +792,12 @@ pub(crate) fn add_sequence_insert<W, R, T>(
             let Some(len0) = seq0.len() else { return xerr(ManagedXError::new("sequence is infinite", rt)?); };
             rt.can_allocate((len0 + 1)* size_of::<usize>())?;
             let idx = to_primitive!(a1, Int);
-            let idx = xraise!(seq0.value_to_idx(idx, rt.clone())?);
+            // the index one past the last element is a valid insertion point (the item is appended)
+            let idx = if idx.to_usize() == Some(len0) {
+                len0
+            } else {
+                xraise!(seq0.value_to_idx(idx, rt.clone())?)
+            };
             let mut ret = xraise!(seq0
                 .iter(ns, rt.clone())
                 .take(idx)
